@@ -1,6 +1,6 @@
 (* C07 -- Settlement transaction carries exactly the commitment returned to the bidder.
    Statements only; every proof is [exact <lemma>]. *)
-From Coq Require Import List NArith ZArith Bool.
+From Coq Require Import String List NArith ZArith Bool.
 From MevVerif Require Import lib.Bytes lib.Abi model.Rules model.ProviderSvc model.PreconfProvider
   proofs.PreconfProvider_proofs proofs.PreconfProvider_traces.
 Import ListNotations.
@@ -47,6 +47,41 @@ Theorem C07_order : forall K addr evs h c,
               In (HSend h addr (calldata K amt c)) (heff (run K rules_validators (node_wiring addr) evs)).
 Proof. exact order_node. Qed.
 Print Assumptions C07_order.
+
+(* The same with the order spelled out: the complete effect trace of the handler (newest first) ends with
+   Take ACCEPTED, Sign, Send(calldata c) to the configured contract, Stored ok, Write c -- the submission
+   precedes its success, which precedes the write; exactly one submission per commitment; after the write
+   at most the handler's return. *)
+Theorem C07_order_explicit : forall K addr evs h c,
+  let S := run K rules_validators (node_wiring addr) evs in
+  In (HWrite h c) (heff S) ->
+  exists amt pre, parse_bigint (b_amt (c_bid c)) = Some amt /\
+    hist h S = pre ++ [HWrite h c; HStored h true; HSend h addr (calldata K amt c);
+                       HSign h (c_dig c); HTake h status_accepted] /\
+    (pre = [] \/ pre = [HReturn h RWritten] \/ pre = [HReturn h RWriteErr]).
+Proof. exact write_order_explicit. Qed.
+Print Assumptions C07_order_explicit.
+
+(* The argument order of handleBid -> StoreCommitment -> Pack -> Send in the Go source, pinned as source
+   text regenerated on every run (a swap of two same-typed arguments breaks these equalities); [store_args]
+   lists the values in this order. *)
+Theorem C07_argument_order :
+  Generated.c07_store_call =
+  [[bos "ctx"; bos "bidAmt"; bos "uint64(preConfirmation.Bid.BlockNumber)"; bos "preConfirmation.Bid.TxHash";
+    bos "uint64(preConfirmation.Bid.DecayStartTimestamp)"; bos "uint64(preConfirmation.Bid.DecayEndTimestamp)";
+    bos "preConfirmation.Bid.Signature"; bos "preConfirmation.Signature"]] /\
+  Generated.c07_pack_args =
+  [[bos """storeCommitment"""; bos "uint64(bid.Int64())"; bos "blockNumber"; bos "txHash"; bos "deacyStartTimeStamp";
+    bos "decayEndTimeStamp"; bos "bidSignature"; bos "commitmentSignature"]] /\
+  Generated.c07_send_args =
+  [[bos "ctx"; bos "&evmclient.TxRequest{ To: &p.preconfContractAddr, CallData: callData, }"]].
+Proof. exact (conj store_call_order (conj pack_args_order send_args_wiring)). Qed.
+Print Assumptions C07_argument_order.
+(* Not modelled here: the path from the TxRequest{To, CallData} handed to client.Send to the raw
+   transaction that reaches the node (evmclient.newTx copies To and CallData; nonce, gas and signing are
+   C08's model, which abstracts the payload).  The theorems speak about what is handed to client.Send; that
+   the raw transaction carries the same destination and calldata is observed by the end-to-end class of the
+   driver (real node.NewNode over an in-process JSON-RPC endpoint, eth_sendRawTransaction decoded). *)
 
 (* Every transaction the handlers submit goes to the configured contract. *)
 Theorem C07_destination : forall K addr evs h to cd,
